@@ -64,6 +64,82 @@ def build_flux(case, surfs):
                                               lut_exact=case.get('lut_exact', False), **kw)
 
 
+def w_oneside(case):
+    """a two-sided flux image of which only one side was ever formatted (the other side carries no sector at all: all-zero
+    cells or a 1010.. pattern) vs the one-sided sector dump of the formatted side"""
+    res = mkres()
+    try:
+        enc, nt, spt, cont = case['enc'], case['ntracks'], case['spt'], case['container']
+        fside = case['formatted_side']
+        img, model = surface(nt, spt, 'S%d' % fside, 'SIDE%d' % fside)
+        trs = flux.disc_to_tracks(img, nt, spt, fside, enc)
+        if cont == 'mfm':
+            good = [flux.pack_msb_first(b) for b, _, _ in trs]
+        elif enc == 'FM':
+            good = [flux.pack_lsb_first(flux.fm_to_hfe_cells(b)) for b, _, _ in trs]
+        else:
+            good = [flux.pack_lsb_first(b) for b, _, _ in trs]
+        blank = [bytes([case['fill']]) * len(t) for t in good]
+        sides = [good, blank] if fside == 0 else [blank, good]
+        if cont == 'mfm':
+            fname, fdata = 'img.mfm', flux.hxcmfm_image(sides)
+        else:
+            fname, fdata = 'img.hfe', flux.hfe_image(sides, enc, 1 if cont == 'hfe1' else 3)
+        d = run.fresh_dir('c05u')
+        dfsrun.write(d, fname, fdata)
+        dname = 'img.ssd' if enc == 'FM' else 'img.sdd'
+        dfsrun.write(d, dname, img)
+        sig = 'C05:%s:%s:one-side-unformatted:formatted-side%d' % (cont, enc.lower(), fside)
+        cmds = [c for c in CMDS if c != ['show-titles']]
+        a = run_cmds(d, dname, 0, cmds)
+        b = run_cmds(d, fname, 2 * fside, cmds)
+        for cmd, x, y in zip(cmds, a, b):
+            res['n'] += 1
+            xx, yy = x, y
+            if cmd[0] == 'sector-map' and x[0] == 'exit0' and y[0] == 'exit0':
+                try:
+                    from lib import render
+                    xx = (x[0], render.parse_sector_map(x[1]), x[2])
+                    yy = (y[0], render.parse_sector_map(y[1]), y[2])
+                except Exception:
+                    pass
+            if fside == 1 and cmd[0] in ('cat', 'info', 'space') and x[0] == y[0] == 'exit0':
+                # the drive number appears in the output (":2." / "Drive 2"): compare with the digit normalised
+                if cmd[0] == 'cat':
+                    try:
+                        from lib import render
+                        px, py = render.parse_cat(x[1]), render.parse_cat(y[1])
+                        px.pop('drive'), py.pop('drive')
+                        xx, yy = (x[0], px, x[2]), (y[0], py, y[2])
+                    except Exception:
+                        pass
+                else:
+                    xx = (x[0], x[1].replace(b':0.', b':N.').replace(b'on disc 0:', b'on disc N:'), x[2])
+                    yy = (y[0], y[1].replace(b':2.', b':N.').replace(b'on disc 2:', b'on disc N:'), y[2])
+            if xx[:3] != yy[:3]:
+                what = 'exit' if x[0] != y[0] else ('stdout' if x[1] != y[1] else 'files')
+                bump(res, 'differs')
+                res['viol'].append(('%s:%s' % (sig, what), '%s %s %dx%d, side %d formatted, other side filled with %#x: %r on %s gave %s/%dB, on %s drive %d %s/%dB; stderr=%r' % (
+                    enc, cont, nt, spt, fside, case['fill'], cmd, dname, x[0], len(x[1]), fname, 2 * fside, y[0], len(y[1]), y[3])))
+                break
+            bump(res, 'same')
+        # the unformatted side must not be readable as anything
+        r = dfsrun.dfs(BIN, ['--file', fname, 'dump-sector', str(2 - 2 * fside), '0', '0'], d)
+        res['n'] += 1
+        if r.status() == 'exit0':
+            res['viol'].append((sig + ':unformatted-side-readable', 'dump-sector of the unformatted side succeeded'))
+        elif r.sig or r.timeout:
+            res['viol'].append((sig + ':unformatted-side-crash', r.status()))
+        res['nt'].append(tuple(sorted((k, repr(v)) for k, v in case.items() if k not in ('w',))))
+        if res['viol']:
+            res['case'] = case
+    except Exception:
+        import traceback
+        res['viol'].append(('HARNESS', traceback.format_exc()))
+        res['case'] = case
+    return res
+
+
 def w_equiv(case):
     """one disc recorded as a flux image vs its sector dump"""
     res = mkres()
@@ -192,7 +268,7 @@ def w_opcodes(case):
 
 
 def worker(case):
-    return {'equiv': w_equiv, 'opcodes': w_opcodes}[case['w']](case)
+    return {'equiv': w_equiv, 'opcodes': w_opcodes, 'oneside': w_oneside}[case['w']](case)
 
 
 CONTAINERS = {'FM': ['hfe1', 'hfe3'], 'MFM': ['hfe1', 'hfe3', 'mfm']}
@@ -211,6 +287,17 @@ def fam_matrix(tier):
         for cont in ('hfe1', 'mfm'):
             yield {'w': 'equiv', 'enc': 'MFM', 'container': cont, 'sides': 1, 'ntracks': 80, 'spt': 18}
         yield {'w': 'equiv', 'enc': 'FM', 'container': 'hfe1', 'sides': 2, 'ntracks': 80, 'spt': 10}
+
+
+def fam_oneside(tier):
+    """two-sided flux images with only side 0 / only side 1 formatted (a one-sided disc imaged in a two-headed drive), every container"""
+    for enc in ('FM', 'MFM'):
+        for cont in CONTAINERS[enc]:
+            for fside in (0, 1):
+                for fill in (0x00, 0xAA):
+                    for nt in ((2, 40) if tier == 'quick' else (1, 2, 3, 40, 80)):
+                        yield {'w': 'oneside', 'enc': enc, 'container': cont, 'formatted_side': fside, 'fill': fill, 'ntracks': nt,
+                               'spt': 10 if enc == 'FM' else 18}
 
 
 def fam_orders(tier):
@@ -311,7 +398,7 @@ def fam_opcodes(tier):
 
 
 FAMILIES = [('M-encoding-container-sides-geometry', fam_matrix), ('O-sector-orders', fam_orders),
-            ('G-gaps-sync-padding', fam_gaps), ('L-exact-track-lengths', fam_tracklen), ('V-hfe3-opcodes', fam_opcodes)]
+            ('G-gaps-sync-padding', fam_gaps), ('L-exact-track-lengths', fam_tracklen), ('V-hfe3-opcodes', fam_opcodes), ('U-one-side-unformatted', fam_oneside)]
 
 
 def main(tier, seed):
